@@ -52,6 +52,45 @@ Theorem C14_asis_order_deadlocks : exists s,
 Proof. exact asis_order_deadlocks. Qed.
 Print Assumptions C14_asis_order_deadlocks.
 
+(** * The result lock held across steps (Model/TaskLock.v)
+
+    [lexec tl k v linit tr s]: [k] waiters inside [Task::ready] of one task instance and the
+    writer ([Task::mark_as_done] storing [v]) reach [s] by the schedule [tr]; a waiter that has
+    acquired the result mutex keeps it over several steps (look, clone, release), so another
+    waiter's check can find the mutex held.  [tl = false]: the code (`lock().await`: the check
+    waits for the mutex); [tl = true]: a `try_lock()` check (not the code). *)
+From PV Require Import Model.TaskLock Proofs.TaskLock.
+
+(** Both variants: every schedule is finite. *)
+Theorem C14_contended_traces_bounded : forall tl k v tr s,
+  lexec tl k v linit tr s -> List.length tr <= 7 * k + 3.
+Proof. exact ltraces_bounded. Qed.
+Print Assumptions C14_contended_traces_bounded.
+
+(** The code's protocol: while a waiter has not returned, some step is enabled (whoever holds
+    the mutex can go on; with the mutex free a waiter or the writer can). *)
+Theorem C14_contended_deadlock_free : forall k v tr s,
+  lexec false k v linit tr s -> all_returnedb k s = false -> exists l s', lstep false k v s l = Some s'.
+Proof. exact ldeadlock_free. Qed.
+Print Assumptions C14_contended_deadlock_free.
+
+(** The code's protocol: every maximal schedule of readers/readers/writer interleavings ends
+    with every waiter having returned the stored result (nobody waits forever, nobody panics). *)
+Theorem C14_contended_readers_return : forall k v tr s,
+  lexec false k v linit tr s -> (forall l, lstep false k v s l = None) ->
+  forall i, i < k -> l_r s i = RDone v.
+Proof. exact contended_readers_return. Qed.
+Print Assumptions C14_contended_readers_return.
+
+(** A `try_lock()` check is refuted in the model: waiter 0 holds the mutex of a finished task
+    (cloning) while waiter 1 checks, concludes "no result yet" and waits for a signal that has
+    already fired.  Regression witness for the model's discriminating power, not a finding. *)
+Theorem C14_try_lock_check_strands_a_waiter : exists s,
+  lexec true 2 7 linit trylock_schedule s /\ l_r s 0 = RDone 7 /\ l_r s 1 = R4 1 /\ l_epoch s = 1 /\
+  all_returnedb 2 s = false /\ forall l, lstep true 2 7 s l = None.
+Proof. exact trylock_strands_a_waiter. Qed.
+Print Assumptions C14_try_lock_check_strands_a_waiter.
+
 (** The boolean oracle evaluated on the implementation's runs means what it should. *)
 From PV Require Oracle.C14 Proofs.OracleTasksMetrics.
 Theorem C14_oracle_sound : forall ids results,
